@@ -32,6 +32,8 @@ type Obligation struct {
 	Note     string
 	Harness  string
 	Confirmd bool
+	PrefScore int `json:"-"`
+	Tries     int `json:"-"`
 }
 
 type CoverRec struct {
@@ -89,7 +91,10 @@ type Engine struct {
 	params      map[string]int
 	smtDir      string
 	extra       map[string]interface{}
+	lastPrefScore int
+	prefs       []*Term // soft preferences for counterexample models (ndPrefer)
 	lazyBranch  bool
+	cutFn       string // ndAtFirstLoop: function whose first loop header ends the path
 	fnStats     map[string][3]int
 	panicObls   bool
 	panicSeen   map[string]bool
@@ -172,6 +177,16 @@ func siteOf(in ssa.Instruction) string {
 		}
 	}
 	return name
+}
+
+// isLoopHeader: some predecessor is dominated by the block (a back edge ends here)
+func isLoopHeader(b *ssa.BasicBlock) bool {
+	for _, p := range b.Preds {
+		if b.Dominates(p) {
+			return true
+		}
+	}
+	return false
 }
 
 // ---------- feasibility / assumptions ----------
@@ -575,6 +590,31 @@ func (pc *pathCtx) run(it *item) {
 				return
 			}
 		}
+		if it.fr.idx == 0 && e.cutFn != "" && it.fr.prev != nil && it.fr.fn.Name() == e.cutFn && it.fr.loops[blk.Index] == 1 && isLoopHeader(blk) {
+			// cut: report the []byte value flowing into the loop header from the entry edge
+			var got Value
+			n := 0
+			for _, in := range blk.Instrs {
+				ph, ok := in.(*ssa.Phi)
+				if !ok {
+					break
+				}
+				if isByteSlice(ph.Type()) {
+					for i, p := range blk.Preds {
+						if p == it.fr.prev {
+							got = pc.val(it, ph.Edges[i])
+							n++
+						}
+					}
+				}
+			}
+			if n != 1 {
+				unsupported("ndAtFirstLoop: %d []byte values flow into the first loop of %s", n, it.fr.fn)
+			}
+			*pc.outs = append(*pc.outs, Outcome{St: it.st, Ret: got, Cut: true})
+			e.PathsEnded++
+			return
+		}
 		if it.fr.idx == 0 {
 			// phis are evaluated simultaneously against the predecessor edge
 			np := 0
@@ -867,7 +907,7 @@ func (pc *pathCtx) resume(it *item, x ssa.Value, outs []Outcome) bool {
 	var first *Outcome
 	for i := range outs {
 		o := &outs[i]
-		if o.Panic != nil {
+		if o.Panic != nil || o.Cut {
 			*pc.outs = append(*pc.outs, *o)
 			continue
 		}
